@@ -72,6 +72,10 @@ type Unit struct {
 	Check func(t *T, in In) []Finding
 	// Gen drives Check over the generated/enumerated space (calls t.Do).
 	Gen func(t *T)
+	// ShrinkOps: the input is a list of independent "s:" operations after KeepPrefix fixed fields;
+	// the shrinker may drop any of them.
+	ShrinkOps  bool
+	KeepPrefix int
 }
 
 var units []*Unit
@@ -179,6 +183,19 @@ func (t *T) shrink(f Finding, in In) Finding {
 	}
 	best := f
 	budget := 400
+	// first drop whole "s:" operations (programs are lists of independent ops)
+	if t.U.ShrinkOps {
+		for i := len(cur) - 1; i >= t.U.KeepPrefix && budget > 0 && len(cur) > t.U.KeepPrefix+1; i-- {
+			if i >= len(cur) || !strings.HasPrefix(cur[i], "s:") {
+				continue
+			}
+			c := append(append(In(nil), cur[:i]...), cur[i+1:]...)
+			budget--
+			if g, ok := same(c); ok {
+				cur, best = c, g
+			}
+		}
+	}
 	for i := range cur {
 		if !strings.HasPrefix(cur[i], "h:") {
 			continue
